@@ -153,6 +153,16 @@ def g9_kvp_value(ctx, g, prefix):
         heads = g.choices_of(parts[0])
         ok_head = any(h["k"] == "rep1" and h["e"]["k"] == "ident" and h["e"]["v"] == "ASCII_DIGIT" for h in heads)
     ctx.check(ok_head, prefix, "G9|digit-head", "G9: kvp_value has an ASCII_DIGIT+ head alternative (integer literals)", W)
+    # a value is an expression: it may also start with `-`, `&`, `(`, `'` ...: some head alternative must accept any
+    # character that is not a separator (or the head is optional), otherwise `a = -1;` loses the whole statement
+    any_head = False
+    if parts:
+        for h in g.choices_of(parts[0]):
+            hs = flatten(h, "seq")
+            if len(hs) == 2 and hs[0]["k"] == "neg" and hs[1].get("v") == "ANY":
+                stops_ = {a["v"] for a in g.choices_of(hs[0]["e"]) if a["k"] == "str"}
+                any_head = {",", ";"} <= stops_ and all(len(x) == 1 for x in stops_) and len(stops_) <= 3
+    ctx.check(any_head, prefix, "G9|any-head", "G9: a key-value's value may begin with any character other than a separator (`-1`, `&x`, `(a + b)`, `'c'`)", W)
     ok_tail = False
     if len(parts) == 2 and parts[1]["k"] == "rep":
         t = flatten(parts[1]["e"], "seq")
@@ -244,9 +254,26 @@ def g12_scan_strings(ctx, g, prefix, require_string=True):
                   "G12b: with a string alternative present, char literals must be consumed too (else `'\"'` opens a bogus string that can swallow a comment opener)", W)
 
 
+def _is_ident_head(e, g):
+    return g.first(e) >= {("class", "XID_START"), ("chr", "_")} and all(x in (("class", "XID_START"), ("chr", "_")) for x in g.first(e))
+
+
 def g13_qualified(ctx, g, prefix):
     if need(ctx, g, prefix, ["macro_name"]):
         ctx.check("::" in g.vocab(g.expr("macro_name")), prefix, "G13|path-sep", "G13: macro_name admits `::` (qualified paths)", W)
+        # every segment of the path is a whole identifier: `::` may follow a one-character segment too, otherwise
+        # `m::info!(..)` is cut after `m`, the scan restarts at `info` and a foreign module's macro passes for a bare one
+        parts = flatten(g.inline(g.expr("macro_name")), "seq")
+        ok = False
+        shape = [p["k"] for p in parts]
+        if len(parts) == 3 and parts[1]["k"] == "rep" and parts[2]["k"] == "rep":
+            head_ok = _is_ident_head(parts[0], g)
+            cont_ok = parts[1]["e"]["k"] == "ident" and parts[1]["e"]["v"] == "XID_CONTINUE"
+            seg = flatten(parts[2]["e"], "seq")
+            seg_ok = len(seg) == 3 and seg[0] == {"k": "str", "v": "::"} and _is_ident_head(seg[1], g) and seg[2]["k"] == "rep" \
+                and seg[2]["e"]["k"] == "ident" and seg[2]["e"]["v"] == "XID_CONTINUE"
+            ok = head_ok and cont_ok and seg_ok
+        ctx.check(ok, prefix, "G13|path-shape", "G13: macro_name = identifier (`::` identifier)* — a path segment of any length, also one character (%s)" % shape, W)
 
 
 def statement_shape(g):
@@ -372,6 +399,20 @@ def g16_strings_atomic(ctx, g, prefix):
                 bodies.append(name)
                 if "N" in how:
                     bad.append(name)
+    # ... and nothing is skipped between a quote and the body: a rule that puts `"` next to a string body must
+    # itself run atomically, otherwise `"  x"` starts after the blanks and `"// x"` loses its closing quote
+    seam = []
+    bset = set(bodies)
+    for name, how in sorted(cx.items()):
+        if "N" not in how or name in bset:
+            continue
+        parts = flatten(g.rules[name]["expr"], "seq")
+        for a_, b_ in zip(parts, parts[1:]):
+            pair = [(x["k"], x.get("v")) for x in (a_, b_)]
+            if (pair[0] == ("str", '"') and pair[1][0] == "ident" and pair[1][1] in bset) or (pair[1] == ("str", '"') and pair[0][0] == "ident" and pair[0][1] in bset):
+                seam.append(name)
+    ctx.check(not seam, prefix, "G16|quote-seam",
+              "G16: no implicit white space / comment skipping between a string's quotes and its text (rules joining `\"` and a string body non-atomically: %s)" % (sorted(set(seam)) or "none"), W)
     ctx.check(len(bodies) >= 1, prefix, "G16|string-body-anchor", "G16: string-literal bodies found in rules reachable from `file` (%s)" % sorted(set(bodies)), W)
     ctx.check(not bad, prefix, "G16|strings-atomic",
               "G16: every string-literal body reachable from `file` is matched atomically, so comment openers inside a string are text (non-atomic: %s)"
